@@ -481,3 +481,66 @@ fn base64_of(b: &[u8]) -> String {
   use base64::{engine::Engine as _, prelude::BASE64_STANDARD};
   BASE64_STANDARD.encode(b)
 }
+
+/// `vh proof-complete --seed S --requests N` (C13 completeness): every honest verifiable evaluation
+/// verifies — directly, and after the public key (bincode) and the evaluation (JSON) have been
+/// serialised and restored — for servers over tag sets of size 1 .. 256 and tags at both ends.
+pub fn proof_complete(a: &Args) -> Report {
+  let mut rep = Report::new("proof-complete");
+  let seed = a.u64("seed", 1);
+  let nreq = a.u64("requests", 3) as usize;
+  let mut rng = rng_from(seed, 1314);
+  let xs = inputs(&mut rng, nreq.max(3));
+  for nt in [1usize, 2, 3, 17, 128, 255, 256] {
+    let tags: Vec<u8> = if nt == 1 { vec![255] } else { (0..nt).map(|i| i as u8).collect() };
+    let srv = match Server::new(tags.clone()) {
+      Ok(s) => s,
+      Err(_) => continue,
+    };
+    let pk = srv.get_public_key();
+    let restored = restored_pk(&pk);
+    let mut probe: Vec<u8> = vec![tags[0], tags[tags.len() - 1], tags[tags.len() / 2]];
+    probe.dedup();
+    for md in probe {
+      for (xi, x) in xs.iter().take(nreq).enumerate() {
+        let (bp, _r) = Client::blind(x);
+        let ev = match srv.eval(&bp, md, true) {
+          Ok(e) => e,
+          Err(_) => {
+            rep.violation("C13", "Server::eval", "verifiable-eval-failed", "verifiable evaluation of a registered tag failed".into(), json!({"tags": nt, "tag": md}));
+            continue;
+          }
+        };
+        let ctx = json!({"tag_set_size": nt, "tag": md, "input_index": xi});
+        rep.evaluations += 3;
+        rep.nontrivial(format!("{nt}:{md}:{xi}"));
+        if !matches!(guard(|| Client::verify(&pk, &bp, &ev, md)), Guard::Done(true)) {
+          rep.violation("C13", "Client::verify", "honest-rejected", "an honest verifiable evaluation does not verify".into(), ctx.clone());
+        }
+        match &restored {
+          Some(p2) => {
+            if !matches!(guard(|| Client::verify(p2, &bp, &ev, md)), Guard::Done(true)) {
+              rep.violation("C13", "Client::verify", "honest-rejected-after-pk-restore",
+                "an honest evaluation does not verify under the restored public key".into(), ctx.clone());
+            }
+            match (restored_eval(&ev), restored_point(&bp)) {
+              (Some(e2), Some(b2)) => {
+                if !matches!(guard(|| Client::verify(p2, &b2, &e2, md)), Guard::Done(true)) {
+                  rep.violation("C13", "Client::verify", "honest-rejected-after-restore",
+                    "an honest evaluation does not verify after key, point and evaluation were serialised and restored".into(), ctx.clone());
+                }
+              }
+              _ => rep.violation("C13", "serde_json", "evaluation-not-restorable",
+                "an honest evaluation or request point does not survive JSON".into(), ctx.clone()),
+            }
+          }
+          None => rep.violation("C13", "ServerPublicKey::load_from_bincode", "public-key-not-restorable",
+            format!("the public key of a server with {nt} tags cannot be restored from its own serialisation"), ctx.clone()),
+        }
+      }
+    }
+    rep.sample(json!({"tag_set_size": nt, "requests_per_tag": nreq}));
+  }
+  rep.traces = 1;
+  rep
+}
